@@ -55,7 +55,7 @@ def _server_port() -> int:
     th.start()
     t0 = time.time()
     while not server.started:
-        if time.time() - t0 > 30:
+        if time.time() - t0 > 90:
             raise common.Infra("uvicorn server did not start")
         time.sleep(0.02)
     _SERVER.update(pid=os.getpid(), port=port, server=server)
@@ -82,6 +82,94 @@ def _http_conn(db_path=":isolated:", database="DB1", schema="S1"):
         sp["FAKESNOW_DB_PATH"] = db_path
     return _real_connect()(user="fake", password="snow", account="fakesnow", host="localhost", port=_server_port(),
                            protocol="http", session_parameters=sp, network_timeout=NET_TIMEOUT["s"], database=database, schema=schema)
+
+
+# ------------------------------------------------------------------------------------------------
+# bounding: a check must never hang.  (1) every statement runs under a SIGALRM deadline in the worker; (2) the parent collects
+# results per history and, when no result arrives for STALL_S seconds, reads the workers' progress files, reports the histories
+# that are stuck (with the statement they are stuck on) and terminates the pool.
+# ------------------------------------------------------------------------------------------------
+import signal
+
+STMT_DEADLINE_S = 45
+STALL_S = 100
+PROGRESS = {"dir": None}
+
+
+class _Deadline(Exception):
+    pass
+
+
+def _on_alarm(signum, frame):
+    raise _Deadline()
+
+
+class _deadline:
+    def __init__(self, seconds=STMT_DEADLINE_S):
+        self.seconds = seconds
+
+    def __enter__(self):
+        try:
+            signal.signal(signal.SIGALRM, _on_alarm)
+            signal.setitimer(signal.ITIMER_REAL, self.seconds)
+        except ValueError:          # not in the main thread
+            pass
+
+    def __exit__(self, *a):
+        try:
+            signal.setitimer(signal.ITIMER_REAL, 0)
+        except ValueError:
+            pass
+        return False
+
+
+def _progress(task, step, what=""):
+    d = PROGRESS.get("dir")
+    if d:
+        try:
+            with open(os.path.join(d, f"{os.getpid()}.json"), "w") as f:
+                json.dump({"task": task, "step": step, "what": what[:300]}, f)
+        except OSError:
+            pass
+
+
+def _task(arg):
+    kind, idx, payload = arg
+    PROGRESS["task"] = idx
+    _progress(idx, -1)
+    r = (_worker_b if kind == "b" else _worker_c)([payload])
+    _progress(None, -1)
+    return idx, r
+
+
+def _bounded_map(kind, tasks, stall_s=STALL_S):
+    """runs one task per history on a process pool; returns (results aligned with tasks — None when unfinished, stuck: {task index: progress})"""
+    import multiprocessing as mp
+    import shutil
+    PROGRESS["dir"] = tempfile.mkdtemp(prefix="c17-progress-")
+    procs = min(len(tasks), int(os.environ.get("VERIF_PROCS", "0")) or (os.cpu_count() or 4))
+    results, stuck = [None] * len(tasks), {}
+    pool = mp.get_context("fork").Pool(procs)
+    try:
+        it = pool.imap_unordered(_task, [(kind, i, t) for i, t in enumerate(tasks)], chunksize=1)
+        for _ in range(len(tasks)):
+            try:
+                i, r = it.next(timeout=stall_s)
+            except mp.TimeoutError:
+                for f in os.listdir(PROGRESS["dir"]):
+                    try:
+                        p = json.load(open(os.path.join(PROGRESS["dir"], f)))
+                    except Exception:
+                        continue
+                    if p.get("task") is not None and results[p["task"]] is None:
+                        stuck[p["task"]] = p
+                break
+            results[i] = r
+    finally:
+        pool.terminate()
+        shutil.rmtree(PROGRESS["dir"], ignore_errors=True)
+        PROGRESS["dir"] = None
+    return results, stuck
 
 
 # ------------------------------------------------------------------------------------------------
@@ -112,11 +200,22 @@ def _canon(v):
 
 def _observe(conn, sql: str) -> dict:
     import snowflake.connector.errors as E
+    try:
+        with _deadline():
+            return _observe_inner(conn, sql)
+    except _Deadline:
+        return {"k": "X", "cls": "Deadline"}
+
+
+def _observe_inner(conn, sql: str) -> dict:
+    import snowflake.connector.errors as E
     cur = conn.cursor()
     try:
         cur.execute(sql)
     except E.ProgrammingError as e:
         return {"k": "P", "errno": e.errno, "sqlstate": e.sqlstate, "msg": e.msg}
+    except _Deadline:
+        raise
     except Exception as e:  # raw exception in-process / InternalServerError over HTTP
         return {"k": "X", "cls": type(e).__name__}
     try:
@@ -272,6 +371,24 @@ def _gen_history(rnd, hid: int, force_types=None) -> list[tuple[str, str]]:
     mid.append(("select-lit", "select 1, 1.5, 'a', true, 1::number(10,0), 1.5::number(10,1), 2.5::float, to_date('2020-01-01')"))
     rnd.shuffle(mid)
     st += mid[: rnd.randint(10, 22)]
+    same: list[tuple[str, str]] = [("other-schema", "use schema DB1.S1"), ("select-same-text", f"select * from {t} order by id")]
+    # the SAME statement text with a different meaning: after ALTER TABLE ADD/DROP COLUMN, and under another current schema
+    # that holds a different table of the same name
+    zc = f"z{rnd.randrange(1000)}"
+    same.append(("alter", f"alter table {t} add column {zc} int"))
+    same.append(("select-same-text", f"select * from {t} order by id"))
+    if rnd.random() < 0.5:
+        same.append(("alter-drop", f"alter table {t} drop column if exists {zc}"))
+        same.append(("select-same-text", f"select * from {t} order by id"))
+    same.append(("other-schema", "create schema if not exists DB1.S3"))
+    same.append(("other-schema", "use schema DB1.S3"))
+    same.append(("other-schema", f"create table if not exists {t} (id varchar, w timestamp_ntz, v number(10,3))"))
+    same.append(("other-schema", f"insert into {t} values ('k', '1969-12-31 23:59:59.000065', 1.125), (NULL, NULL, NULL)"))
+    same.append(("select-same-text", f"select * from {t} order by id"))
+    same.append(("other-schema", "use schema DB1.S1"))
+    same.append(("select-same-text", f"select * from {t} order by id"))
+    if rnd.random() < 0.7:
+        st += same
     # explicit transactions with a FAILING statement in the middle: the failure must not end (or commit) the transaction
     fq = f"DB1.S1.{t}"
     for end in rnd.sample(["commit", "rollback"], 2)[: rnd.choice([0, 1, 1, 2])]:
@@ -335,10 +452,13 @@ def _worker_b(shard):
         res = []
         with fakesnow.patch():
             inpr = snowflake.connector.connect(database="DB1", schema="S1")
-            for kind, sql in hist:
+            for si, (kind, sql) in enumerate(hist):
+                _progress(PROGRESS.get("task"), si, sql)
                 b = _observe(inpr, sql)
                 a = _observe(http, sql)
                 res.append((a, b))
+                if a.get("cls") == "Deadline" or b.get("cls") == "Deadline":
+                    break           # the connection is in an unknown state: stop this history here
         try:
             http.close()
         except Exception:
@@ -355,7 +475,7 @@ def _worker_b(shard):
             res = [({"k": "X", "cls": "OperationalError"}, {"k": "X", "cls": "-"})]
         if any(a.get("cls") == "OperationalError" for a, _ in res):
             # a client-side network timeout on the loaded machine (not an answer of the server): run the history again, patiently
-            NET_TIMEOUT["s"] = 20
+            NET_TIMEOUT["s"] = 8
             try:
                 res = run_hist(hist)
             finally:
@@ -492,8 +612,18 @@ def _run_b(chk, rnd, nhist: int):
     # the type table sweep: one statement per type expression
     type_hist = [("type:" + tok, f"select {expr} as c from (select 1) t") for tok, expr in TYPE_EXPRS]
     hists.append((nhist, type_hist))
-    shards = common.chunks(hists, 16)
-    reals = common.shard_map(_worker_b, shards)
+    shards = [[h] for h in hists]
+    reals, stuck = _bounded_map("b", hists)
+    for ti, p in sorted(stuck.items()):
+        hid, hist = hists[ti]
+        si = max(0, min(p.get("step", 0), len(hist) - 1))
+        chk.violation(f"`{hist[si][1]}` (statement #{si} of a history): no answer within {STALL_S} s — the HTTP request or its in-process twin is stuck; "
+                      f"the worker was terminated", {"part": "B", "history": [q for _, q in hist[: si + 1]], "kinds": [k for k, _ in hist[: si + 1]]},
+                      broken="C17_response_partial (request did not complete)")
+    if any(r is None for r in reals):
+        chk.extra["histories_unfinished"] = sum(1 for r in reals if r is None)
+    keep = [i for i, r in enumerate(reals) if r is not None]
+    shards, reals = [shards[i] for i in keep], [reals[i] for i in keep]
     # model: one `resp` line per statement + the type table
     tys = set({tok for tok, _ in TYPE_EXPRS} | {"other", "integer", "timestamp_ns"} | {f"decimal:{p}:{s}" for p in (38, 18, 10, 5, 1) for s in (0, 2, 6, 10, 37)})
     ty_list = sorted(tys)
@@ -516,6 +646,8 @@ def _run_b(chk, rnd, nhist: int):
     ty_replies = {t: r for t, r in zip(ty_list, replies[len(lines):])}
     ended = set()
     for (hid, hist, si, kind, sql, a, b), reply in zip(all_obs, replies):
+        if b.get("cls") == "Deadline":
+            raise common.Infra(f"in-process statement `{sql[:80]}` did not finish within {STMT_DEADLINE_S} s")
         if a.get("cls") == "OperationalError":
             raise common.Infra(f"connector network timeout persisted on `{sql[:80]}` (machine overloaded?)")
         if hid in ended:
@@ -789,6 +921,28 @@ def _post(port, path, body, auth=None):
             return e.code, {"raw": raw[:200].decode("latin1")}
 
 
+BODY_KINDS = ["ok", "empty", "nogzip", "nojson", "nosql"]
+
+
+def _post_raw(port, path, kind, sql, auth=None):
+    """a raw request whose BODY is well-formed or broken in one of four ways"""
+    good = json.dumps({"sqlText": sql}).encode()
+    data = {"ok": gzip.compress(good), "empty": b"", "nogzip": good, "nojson": gzip.compress(b"this is not json"),
+            "nosql": gzip.compress(json.dumps({"foo": 1}).encode())}[kind]
+    req = urllib.request.Request(f"http://localhost:{port}{path}", data=data, method="POST")
+    if auth is not None:
+        req.add_header("Authorization", auth)
+    try:
+        with urllib.request.urlopen(req, timeout=20) as r:
+            return r.status, json.loads(r.read())
+    except urllib.error.HTTPError as e:
+        raw = e.read()
+        try:
+            return e.code, json.loads(raw)
+        except Exception:
+            return e.code, {"raw": raw[:200].decode("latin1")}
+
+
 def _gen_session_history(rnd, hid: int) -> list:
     """abstract requests: ('L', name, backing, schema) | ('Q', who, q) with who = session name | 'forged:<text>' | 'none' | 'empty' | 'raw:<name>'"""
     reqs = []
@@ -818,6 +972,8 @@ def _gen_session_history(rnd, hid: int) -> list:
             continue
         if r < 0.3:
             who = rnd.choice(["none", "empty", "forged:x", "forged:" + "A" * 43, "forged:", "forged:None", "short:Bearer x", "trunc:" + rnd.choice(live)])
+            # unauthenticated requests are refused whatever their body looks like
+            who += "|" + rnd.choice(BODY_KINDS)
         elif r < 0.4:
             who = "raw:" + rnd.choice(live)
         else:
@@ -850,6 +1006,8 @@ def _gen_session_history(rnd, hid: int) -> list:
             q = f"put,{v}"
         else:
             q = {"cs": "cs", "all": "all"}[kind]
+        if "|" in who and not who.endswith("|ok"):
+            q = "bad"
         reqs.append(("Q", who, q))
     while pending:
         nm, b = pending.pop()
@@ -896,7 +1054,8 @@ def _worker_c(shard):
         conns, tokens, resp, tmpdirs = {}, {}, [], []
         seq = 0
         before_sessions = len(fakesnow.server.sessions)
-        for r in reqs:
+        for ri, r in enumerate(reqs):
+            _progress(PROGRESS.get("task"), ri, str(r))
             if r[0] == "L":
                 _, nm, b, sch = r
                 dbp = None
@@ -912,14 +1071,16 @@ def _worker_c(shard):
                 resp.append(f"T:{nm}")
                 continue
             _, who, q = r
+            who, _, body_kind = who.partition("|")
             seq += 1
-            sqls = _sql_of(q, f"{os.getpid()}_{hid}_{attempt}", seq)
+            sqls = _sql_of(q, f"{os.getpid()}_{hid}_{attempt}", seq) if q != "bad" else ["select 1"]
             if who in conns:
                 try:
-                    cur = conns[who].cursor()
-                    for s in sqls:
-                        cur.execute(s)
-                    rows = cur.fetchall()
+                    with _deadline():
+                        cur = conns[who].cursor()
+                        for s in sqls:
+                            cur.execute(s)
+                        rows = cur.fetchall()
                     p0 = q.split(",")[0]
                     if p0 in ("sv", "us", "put", "begin", "commit", "rollback"):
                         resp.append("S")
@@ -951,7 +1112,7 @@ def _worker_c(shard):
                 raise AssertionError(who)
             last = None
             for s in sqls:
-                last = _post(port, "/queries/v1/query-request", {"sqlText": s}, auth=auth)
+                last = _post_raw(port, "/queries/v1/query-request", body_kind or "ok", s, auth=auth)
                 if last[0] != 200:
                     break
             status, body = last
@@ -982,7 +1143,7 @@ def _worker_c(shard):
                 raise
             r = {"resp": ["EXC:OperationalError"]}
         if any("OperationalError" in x or "timed out" in x for x in r["resp"]):
-            NET_TIMEOUT["s"] = 20        # client-side timeout on the loaded machine: run the sequence again, patiently
+            NET_TIMEOUT["s"] = 8         # client-side timeout on the loaded machine: run the sequence again, patiently
             try:
                 r = run_hist(hid, reqs, 1)
             finally:
@@ -1001,6 +1162,7 @@ def _model_line_c(reqs) -> tuple[str, list]:
             shape.append(("L", nm))
             continue
         _, who, q = r
+        who = who.partition("|")[0]
         if who == "none":
             auth = "-"
         elif who == "empty":
@@ -1035,8 +1197,15 @@ def _norm_model_resp(m: str, shape) -> str:
 
 def _run_c(chk, rnd, nhist: int):
     hists = [(i, _gen_session_history(rnd, i)) for i in range(nhist)]
-    shards = common.chunks(hists, 16)
-    reals = common.shard_map(_worker_c, shards)
+    shards = [[h] for h in hists]
+    reals, stuck = _bounded_map("c", hists)
+    for ti, p in sorted(stuck.items()):
+        hid, reqs = hists[ti]
+        si = max(0, min(p.get("step", 0), len(reqs) - 1))
+        chk.violation(f"request #{si} {reqs[si]} of a login/query sequence: no answer within {STALL_S} s; the worker was terminated",
+                      {"part": "C", "requests": reqs[: si + 1]}, broken="C17 sessions (request did not complete)")
+    keep = [i for i, r in enumerate(reals) if r is not None]
+    shards, reals = [shards[i] for i in keep], [reals[i] for i in keep]
     lines, shapes = [], []
     for shard in shards:
         for hid, reqs in shard:
@@ -1056,7 +1225,10 @@ def _run_c(chk, rnd, nhist: int):
             chk.case(("C", hid, tuple(map(tuple, reqs))), nontrivial=True,
                      sample={"requests": [list(r) for r in reqs[:10]], "responses": got[:10]} if hid == 0 else None)
             for r in reqs:
-                chk.count("req:" + ("login:" + r[2] if r[0] == "L" else ("query:" + (r[1].split(":")[0] if ":" in r[1] or r[1] in ("none", "empty") else "session"))))
+                w = r[1].partition("|")[0] if r[0] == "Q" else ""
+                chk.count("req:" + ("login:" + r[2] if r[0] == "L" else ("query:" + (w.split(":")[0] if ":" in w or w in ("none", "empty") else "session"))))
+                if r[0] == "Q" and "|" in r[1]:
+                    chk.count("unauth-body:" + r[1].partition("|")[2])
             if any("OperationalError" in x for x in got):
                 raise common.Infra("connector network timeout persisted in a session sequence (machine overloaded?)")
             if got != model:
@@ -1090,9 +1262,18 @@ def run(chk) -> None:
     t0 = time.time()
     _run_a(chk, rnd, thorough)
     t1 = time.time()
-    _run_b(chk, rnd, 1000 if thorough else 100)
+
+    def part(fn, *a):
+        # an infrastructure problem in a later part must not hide violations already found
+        try:
+            fn(chk, rnd, *a)
+        except common.Infra as e:
+            if not chk.violations:
+                raise
+            chk.notes.append(f"{fn.__name__} not completed: {e}")
+    part(_run_b, 1000 if thorough else 100)
     t2 = time.time()
-    _run_c(chk, rnd, 700 if thorough else 65)
+    part(_run_c, 700 if thorough else 65)
     chk.extra["wall_parts_s"] = {"A": round(t1 - t0, 1), "B": round(t2 - t1, 1), "C": round(time.time() - t2, 1)}
     chk.exhaustive = True
     chk.extra["exhaustive_part"] = "all 10^6 microsecond fractions per (epoch, tz) combination; all NULL placements of columns of length ≤ 4; the whole types.py table"
